@@ -26,6 +26,7 @@ import (
 	"runtime"
 	"strings"
 	"sync"
+	"syscall"
 	"time"
 
 	"github.com/gofiber/fiber/v3"
@@ -623,7 +624,7 @@ func (w *worker) report(l *core.Local, f *family, hc hcase, offers []string) {
 		hc.el = append([]elem(nil), hc.el...)
 	}
 	still := func(h hcase, o []string) bool { k, _, _ := w.single(f, h, o); return k != "" }
-	for changed := true; changed && hc.el != nil; {
+	for changed := true; changed; {
 		changed = false
 		try := func(k int, ne elem) {
 			if ne == hc.el[k] {
@@ -668,6 +669,9 @@ func (w *worker) report(l *core.Local, f *family, hc hcase, offers []string) {
 					continue
 				}
 				m, p, ext := offerMime(o)
+				if f.mode == mAuto {
+					break // AutoFormat's offers are fixed
+				}
 				for _, cand := range []string{m, m + p} {
 					if cand == o || (!ext && cand == m+p) {
 						continue
@@ -805,9 +809,33 @@ func (p *wpool) put(w *worker) { p.mu.Lock(); p.free = append(p.free, w); p.mu.U
 
 var workers wpool
 
+// skip is a debugging aid only (VERIF_ONLY=media,tokens runs just those phases; a run
+// restricted this way reports a cap and is never exhaustive).
+func skip(tag string) bool {
+	only := os.Getenv("VERIF_ONLY")
+	if only == "" {
+		return false
+	}
+	for _, o := range strings.Split(only, ",") {
+		if o == tag {
+			return false
+		}
+	}
+	return true
+}
+
+func cpuSeconds() float64 {
+	var ru syscall.Rusage
+	_ = syscall.Getrusage(syscall.RUSAGE_SELF, &ru)
+	return float64(ru.Utime.Sec+ru.Stime.Sec) + float64(ru.Utime.Usec+ru.Stime.Usec)/1e6
+}
+
 // enumerate: all headers of 1..maxN ranges over alpha, joined by each separator.
 // Work items: every single range and every ordered pair of first two ranges.
 func enumerate(r *core.Run, tag string, f *family, alpha []elem, minN, maxN int, seps []string) {
+	if skip(tag) {
+		return
+	}
 	N := len(alpha)
 	items := N
 	if maxN >= 2 {
@@ -949,6 +977,9 @@ func selfTest() {
 // pool recycling: ordered pairs back-to-back on one app, sequentially
 
 func poolPhase(r *core.Run, fam, lang *family) {
+	if skip("pool") {
+		return
+	}
 	l := core.NewLocal()
 	w := newWorker()
 	var sub []hcase
@@ -1053,6 +1084,9 @@ func shapeOf(h hcase) string {
 // totality: every string of <= maxLen symbols of the hostile alphabet
 
 func totality(r *core.Run, fams []*family, maxLen int) {
+	if skip("totality") {
+		return
+	}
 	S := len(hostile)
 	// work items: first two symbols (S*S), plus the strings shorter than 2
 	r.Parallel(S*S+S+1, func(it int, l *core.Local) {
@@ -1091,9 +1125,12 @@ func main() {
 	selfTest()
 	quick := r.Quick()
 	t0 := time.Now()
+	if os.Getenv("VERIF_ONLY") != "" {
+		r.Cap("debug run restricted by VERIF_ONLY=" + os.Getenv("VERIF_ONLY"))
+	}
 	phase := func(name string) {
 		if os.Getenv("VERIF_DEBUG") != "" {
-			fmt.Fprintf(os.Stderr, "[c09] %-12s done at %6.1fs evaluations=%d\n", name, time.Since(t0).Seconds(), r.P.Counters["evaluations"])
+			fmt.Fprintf(os.Stderr, "[c09] %-12s done at wall %6.1fs cpu %7.1fs evaluations=%d\n", name, time.Since(t0).Seconds(), cpuSeconds(), r.P.Counters["evaluations"])
 		}
 	}
 
@@ -1117,12 +1154,25 @@ func main() {
 	tokAlpha := product(tokens, []string{""}, tokenQ)
 	bounds := map[string]any{}
 
-	// 1. pool recycling first, alone on the process (sequential)
-	if quick {
-		poolPhase(r, famA2, famL2)
-	} else {
-		poolPhase(r, famA, famL)
+	// 1. pool recycling: alone in a GOMAXPROCS=1 worker process (sequential, so that the
+	// sync.Pool hands the recycled map straight back and GC flushes are cheap); it runs
+	// concurrently with the parallel phases of this process.
+	if r.IsWorker() {
+		if quick {
+			poolPhase(r, famA2, famL2)
+		} else {
+			poolPhase(r, famA, famL)
+		}
+		r.Finish(core.Evidence{})
 	}
+	poolDone := make(chan []string, 1)
+	go func() {
+		if skip("pool") {
+			poolDone <- nil
+			return
+		}
+		poolDone <- r.SpawnWorkers(1, []string{"GOMAXPROCS=1"})
+	}()
 
 	phase("pool")
 
@@ -1206,6 +1256,10 @@ func main() {
 	bounds["pool"] = "all ordered pairs of a 40-header sub-alphabet (Accepts->Accepts) and 40x10 (Accepts->AcceptsLanguages), back-to-back on one app, per offer list"
 
 	phase("totality")
+	if crashed := <-poolDone; len(crashed) > 0 {
+		core.Fatal("C09 pool worker failed: %v", crashed)
+	}
+	phase("pool-join")
 
 	var vary int64
 	for _, w := range workers.free {
